@@ -101,3 +101,12 @@ def foot_on_great_circle(p, a, b):
     ang = math.atan2(sum(x * y for x, y in zip(c, n)), sum(x * y for x, y in zip(A, F)))
     tot = angle(A, B)
     return R * abs(math.asin(max(-1.0, min(1.0, dpn)))), latlon(F), ang / tot
+
+
+def point_on_arc(a, b, u):
+    """the point at fraction u of the great-circle arc a -> b (spherical linear interpolation)"""
+    A, B = vec(*a[:2]), vec(*b[:2])
+    w = angle(A, B)
+    if w < 1e-15:
+        return (a[0], a[1])
+    return latlon((math.sin((1 - u) * w) * A + math.sin(u * w) * B) / math.sin(w))
